@@ -259,11 +259,21 @@ class LockStep:
                 b64 = b.to(torch.float64)
                 if tuple(b64.shape) != tuple(refF.shape):
                     return ('factor-shape', f'factor {which} of {n} has shape {tuple(b64.shape)}, reference {tuple(refF.shape)}')
+                if want == torch.float16:
+                    # float16 factors: products of small gradients underflow (that is what loss scaling is for), so no relative bound
+                    # holds for the values; what must hold is that nothing overflows while the true values are far inside the range
+                    if refF.abs().max().item() < 1e3 and not torch.isfinite(b64).all():
+                        return ('factor-mismatch', f'step {step_index}: factor {which} of layer {n} is not finite in float16 although the true values '
+                                                   f'(max {refF.abs().max().item():.3g}) are far inside the float16 range')
+                    if not torch.isfinite(b64).all():
+                        continue          # a genuine float16 overflow (true values near the range limit): nothing further to compare
                 if not torch.equal(b64, b64.t()):
                     return ('factor-asymmetric', f'step {step_index}: factor {which} of layer {n} is not exactly symmetric')
                 lmin = torch.linalg.eigvalsh(b64).min().item()
                 if lmin < -64 * self.eps_factor * max(b64.norm().item(), 1e-30) * b64.shape[0]:
                     return ('factor-not-psd', f'step {step_index}: factor {which} of layer {n} has eigenvalue {lmin:.3e}')
+                if want == torch.float16:
+                    continue
                 err = (b64 - refF).norm().item() / max(refF.norm().item(), 1e-300)
                 self.stats['worst_factor'] = max(self.stats['worst_factor'], err / tol)
                 if err > tol:
